@@ -367,3 +367,433 @@ theorem C06_roundtrip_donthave (bd : BDec) (rest : Bytes) (i : Nat) (h : U32 i) 
   exact ⟨_, rfl, by rw [e, this], by rw [e, this]; rfl⟩
 
 end Storrent.Props.C06
+
+namespace Storrent.Props.C06
+open Storrent Storrent.Bencode Storrent.Wire Storrent.Props.C04
+
+def WFpeer (w : Nat) (p : PexPeer) : Prop := p.ip.length = w ∧ p.port < 65536 ∧ p.flags < 256
+
+theorem parseCompact_enc (w : Nat) (ps : List PexPeer) (h : ∀ p ∈ ps, WFpeer w p) :
+    parseCompact w ps.length (compact ps) (flagsOf ps) = ps := by
+  induction ps with
+  | nil => simp [parseCompact]
+  | cons p ps ih =>
+    obtain ⟨hip, hport, hfl⟩ := h p (by simp)
+    have ih' := ih (fun q hq => h q (by simp [hq]))
+    simp only [List.length_cons, parseCompact, compact, flagsOf, List.map_cons, List.flatten_cons]
+    have hlen : ¬ ((p.ip ++ be16 p.port ++ (ps.map (fun p => p.ip ++ be16 p.port)).flatten).length < w + 2) := by
+      simp [hip, be16_length] <;> omega
+    rw [if_neg hlen]
+    have h1 : List.take w (p.ip ++ be16 p.port ++ (ps.map (fun p => p.ip ++ be16 p.port)).flatten) = p.ip := by
+      rw [List.append_assoc]; exact List.take_left' hip
+    have h2 : List.drop w (p.ip ++ be16 p.port ++ (ps.map (fun p => p.ip ++ be16 p.port)).flatten)
+        = be16 p.port ++ (ps.map (fun p => p.ip ++ be16 p.port)).flatten := by
+      rw [List.append_assoc]; exact List.drop_left' hip
+    have h3 : List.drop (w + 2) (p.ip ++ be16 p.port ++ (ps.map (fun p => p.ip ++ be16 p.port)).flatten)
+        = (ps.map (fun p => p.ip ++ be16 p.port)).flatten := by
+      exact List.drop_left' (by simp [hip, be16_length])
+    rw [h1, h2, h3]
+    have h4 : List.take 2 (be16 p.port ++ (ps.map (fun p => p.ip ++ be16 p.port)).flatten) = be16 p.port :=
+      List.take_left' (be16_length _)
+    rw [h4, rdBE_be16 _ hport]
+    simp only [List.head?_cons, Option.map_some, Option.getD_some, List.tail_cons]
+    have hf : (UInt8.ofNat p.flags).toNat = p.flags := by
+      simp only [UInt8.toNat_ofNat']; omega
+    rw [hf]
+    have : parseCompact w ps.length (compact ps) (flagsOf ps) = ps := ih'
+    simp only [compact, flagsOf] at this
+    rw [this]
+
+theorem compact_len (w : Nat) (ps : List PexPeer) (h : ∀ p ∈ ps, WFpeer w p) :
+    (compact ps).length = ps.length * (w + 2) := by
+  induction ps with
+  | nil => simp [compact]
+  | cons p ps ih =>
+    have := ih (fun q hq => h q (by simp [hq]))
+    simp only [compact, List.map_cons, List.flatten_cons, List.length_append, List.length_cons] at *
+    rw [this, (h p (by simp)).1, be16_length]
+    rw [Nat.succ_mul]; omega
+
+theorem compactOf_enc (w : Nat) (ps : List PexPeer) (h : ∀ p ∈ ps, WFpeer w p) (f : Option Bytes)
+    (hf : f = some (flagsOf ps)) :
+    compactOf w (some (compact ps)) f = ps := by
+  subst hf
+  unfold compactOf
+  simp only [compact_len w ps h, Option.getD_some]
+  rw [Nat.mul_mod_left, if_pos rfl, Nat.mul_div_cancel _ (by omega : 0 < w + 2)]
+  exact parseCompact_enc w ps h
+
+
+
+theorem parseCompact_enc0 (w : Nat) (ps : List PexPeer) (h : ∀ p ∈ ps, WFpeer w p ∧ p.flags = 0) :
+    parseCompact w ps.length (compact ps) [] = ps := by
+  induction ps with
+  | nil => simp [parseCompact]
+  | cons p ps ih =>
+    obtain ⟨⟨hip, hport, _⟩, hfl⟩ := h p (by simp)
+    have ih' := ih (fun q hq => h q (by simp [hq]))
+    simp only [List.length_cons, parseCompact, compact, List.map_cons, List.flatten_cons]
+    have hlen : ¬ ((p.ip ++ be16 p.port ++ (ps.map (fun p => p.ip ++ be16 p.port)).flatten).length < w + 2) := by
+      simp [hip, be16_length] <;> omega
+    rw [if_neg hlen]
+    have h1 : List.take w (p.ip ++ be16 p.port ++ (ps.map (fun p => p.ip ++ be16 p.port)).flatten) = p.ip := by
+      rw [List.append_assoc]; exact List.take_left' hip
+    have h2 : List.drop w (p.ip ++ be16 p.port ++ (ps.map (fun p => p.ip ++ be16 p.port)).flatten)
+        = be16 p.port ++ (ps.map (fun p => p.ip ++ be16 p.port)).flatten := by
+      rw [List.append_assoc]; exact List.drop_left' hip
+    have h3 : List.drop (w + 2) (p.ip ++ be16 p.port ++ (ps.map (fun p => p.ip ++ be16 p.port)).flatten)
+        = (ps.map (fun p => p.ip ++ be16 p.port)).flatten := by
+      exact List.drop_left' (by simp [hip, be16_length])
+    rw [h1, h2, h3]
+    have h4 : List.take 2 (be16 p.port ++ (ps.map (fun p => p.ip ++ be16 p.port)).flatten) = be16 p.port :=
+      List.take_left' (be16_length _)
+    rw [h4, rdBE_be16 _ hport]
+    simp only [List.head?_nil, Option.map_none, Option.getD_none, List.tail_nil]
+    have : parseCompact w ps.length (compact ps) [] = ps := ih'
+    simp only [compact] at this
+    rw [this]
+    cases p; simp_all
+
+theorem compactOf_enc0 (w : Nat) (ps : List PexPeer) (h : ∀ p ∈ ps, WFpeer w p ∧ p.flags = 0) :
+    compactOf w (some (compact ps)) none = ps := by
+  unfold compactOf
+  simp only [compact_len w ps (fun p hp => (h p hp).1), Option.getD_none]
+  rw [Nat.mul_mod_left, if_pos rfl, Nat.mul_div_cancel _ (by omega : 0 < w + 2)]
+  exact parseCompact_enc0 w ps h
+
+theorem lookup_optKV (k : Bytes) (k' : String) (p : Bool) (v : BV) :
+    lookup k (optKV k' p v) = if p ∧ strBytes k' = k then some v else none := by
+  unfold optKV lookup
+  cases p <;> simp
+
+
+
+def WFpexList (ps : List PexPeer) : Prop :=
+  (∀ p ∈ ps, (WFpeer 4 p ∨ WFpeer 16 p)) ∧ ps.length ≤ 1000000
+
+theorem filter_is4_wf (ps : List PexPeer) (h : ∀ p ∈ ps, (WFpeer 4 p ∨ WFpeer 16 p)) :
+    (∀ p ∈ ps.filter is4, WFpeer 4 p) ∧ (∀ p ∈ ps.filter (fun p => !is4 p), WFpeer 16 p) := by
+  constructor
+  · intro p hp
+    simp [is4] at hp
+    rcases h p hp.1 with h4 | h16
+    · exact h4
+    · exact absurd hp.2 (by rw [h16.1]; decide)
+  · intro p hp
+    simp [is4] at hp
+    rcases h p hp.1 with h4 | h16
+    · exact absurd h4.1 hp.2
+    · exact h16
+
+theorem compactOf_opt (w : Nat) (ps : List PexPeer) (h : ∀ p ∈ ps, WFpeer w p) :
+    compactOf w (if (!ps.isEmpty) = true then some (compact ps) else none)
+      (if (!ps.isEmpty) = true then some (flagsOf ps) else none) = ps := by
+  cases ps with
+  | nil => simp [compactOf]
+  | cons p ps => simp only [List.isEmpty_cons, Bool.not_false, if_true]; exact compactOf_enc w _ h _ rfl
+
+theorem compactOf_opt0 (w : Nat) (ps : List PexPeer) (h : ∀ p ∈ ps, WFpeer w p ∧ p.flags = 0) :
+    compactOf w (if (!ps.isEmpty) = true then some (compact ps) else none) none = ps := by
+  cases ps with
+  | nil => simp [compactOf]
+  | cons p ps => simp only [List.isEmpty_cons, Bool.not_false, if_true]; exact compactOf_enc0 w _ h
+
+theorem getS_of_lookup (d : List (Bytes × BV)) (k : String) (c : Prop) [Decidable c] (s : Bytes)
+    (h : lookup (strBytes k) d = if c then some (.str s) else none) :
+    getS d k = some (if c then some s else none) := by
+  unfold getS; rw [h]
+  by_cases hc : c <;> simp [hc]
+
+theorem or_none_left {α} (x : Option α) : (none : Option α).or x = x := by cases x <;> rfl
+theorem or_if_some {α} (c : Prop) [Decidable c] (v : α) (x : Option α) :
+    (if c then some v else none).or x = if c then some v else x := by split <;> simp
+
+theorem getS_pex (a d : List PexPeer) :
+    let dict := pexDict a d
+    getS dict "added" = some (if (!(a.filter is4).isEmpty) = true then some (compact (a.filter is4)) else none) ∧
+    getS dict "added.f" = some (if (!(a.filter is4).isEmpty) = true then some (flagsOf (a.filter is4)) else none) ∧
+    getS dict "added6" = some (if (!(a.filter (fun p => !is4 p)).isEmpty) = true then some (compact (a.filter (fun p => !is4 p))) else none) ∧
+    getS dict "added6.f" = some (if (!(a.filter (fun p => !is4 p)).isEmpty) = true then some (flagsOf (a.filter (fun p => !is4 p))) else none) ∧
+    getS dict "dropped" = some (if (!(d.filter is4).isEmpty) = true then some (compact (d.filter is4)) else none) ∧
+    getS dict "dropped6" = some (if (!(d.filter (fun p => !is4 p)).isEmpty) = true then some (compact (d.filter (fun p => !is4 p))) else none) := by
+  intro dict
+  refine ⟨?_, ?_, ?_, ?_, ?_, ?_⟩ <;>
+  · apply getS_of_lookup
+    simp only [dict, pexDict, lookup_append, lookup_optKV]
+    simp [strBytes]
+
+
+
+theorem filter_len_le (ps : List PexPeer) (f : PexPeer → Bool) : (ps.filter f).length ≤ ps.length :=
+  List.length_filter_le f ps
+
+theorem pexDict_good (a d : List PexPeer) (ha : WFpexList a) (hd : WFpexList d) :
+    ∀ kv ∈ pexDict a d, GoodKey kv.1 ∧ GoodBV kv.2 := by
+  obtain ⟨ha1, ha2⟩ := ha
+  obtain ⟨hd1, hd2⟩ := hd
+  have fa := filter_is4_wf a ha1
+  have fd := filter_is4_wf d hd1
+  have l1 := compact_len 4 _ fa.1
+  have l2 := compact_len 16 _ fa.2
+  have l3 := compact_len 4 _ fd.1
+  have l4 := compact_len 16 _ fd.2
+  have b1 := filter_len_le a is4
+  have b2 := filter_len_le a (fun p => !is4 p)
+  have b3 := filter_len_le d is4
+  have b4 := filter_len_le d (fun p => !is4 p)
+  intro kv hkv
+  simp only [pexDict, optKV, List.mem_append] at hkv
+  rcases hkv with ((((h | h) | h) | h) | h) | h <;>
+    (split at h <;> simp at h; subst h; simp [GoodKey, GoodBV, strBytes, flagsOf]; omega)
+
+theorem decPex_enc (a d : List PexPeer) (ha : WFpexList a) (hd : WFpexList d)
+    (hd0 : ∀ p ∈ d, p.flags = 0) (rest : Bytes) :
+    decPex (encDict (pexDict a d) ++ rest)
+      = some (a.filter is4 ++ a.filter (fun p => !is4 p), d.filter is4 ++ d.filter (fun p => !is4 p)) := by
+  unfold decPex
+  rw [parseDict_enc _ (pexDict_good a d ha hd)]
+  obtain ⟨g1, g2, g3, g4, g5, g6⟩ := getS_pex a d
+  have fa := filter_is4_wf a ha.1
+  have fd := filter_is4_wf d hd.1
+  simp only [Option.bind_eq_bind, Option.bind_some, g1, g2, g3, g4, g5, g6, Option.pure_def]
+  rw [compactOf_opt 4 _ fa.1, compactOf_opt 16 _ fa.2,
+      compactOf_opt0 4 _ (fun p hp => ⟨fd.1 p hp, hd0 p ((List.mem_filter.mp hp).1)⟩),
+      compactOf_opt0 16 _ (fun p hp => ⟨fd.2 p hp, hd0 p ((List.mem_filter.mp hp).1)⟩)]
+
+
+
+/-- documented normalisation of a PEX list: IPv4 peers first (the compact format carries the
+    two families in separate strings) -/
+def v4first (ps : List PexPeer) : List PexPeer := ps.filter is4 ++ ps.filter (fun p => !is4 p)
+
+theorem rt_pex (rest : Bytes) (a d : List PexPeer) (ha : WFpexList a) (hd : WFpexList d)
+    (hd0 : ∀ p ∈ d, p.flags = 0)
+    (hlen : (encDict (pexDict a d)).length + 2 ≤ 1048576) :
+    let payload := [1] ++ encDict (pexDict a d)
+    (dec leanBDec (be32 (payload.length + 1) ++ [20] ++ payload ++ rest)).res
+        = .msg (.pex 1 (v4first a) (v4first d)) ∧
+    (dec leanBDec (be32 (payload.length + 1) ++ [20] ++ payload ++ rest)).consumed
+        = 4 + (payload.length + 1) := by
+  intro payload
+  have hpl : payload.length = (encDict (pexDict a d)).length + 1 := by
+    simp [payload] <;> omega
+  obtain ⟨a', b, c, d', hbe⟩ : ∃ a b c d, be32 (payload.length + 1) = [a, b, c, d] := ⟨_, _, _, _, rfl⟩
+  have hr : rdBE [a', b, c, d'] = payload.length + 1 := hbe ▸ rdBE_be32 _ (by omega)
+  rw [hbe]
+  have hm := decPex_enc a d ha hd hd0 []
+  rw [List.append_nil] at hm
+  simp only [dec, decodeWith, List.cons_append, List.nil_append, List.length_cons, List.take_succ_cons,
+    List.take_zero, List.drop_succ_cons, List.drop_zero, hr, expectedFrameCap, payload]
+  simp [body, findGuard, expectedGuards, guardViolated, leanBDec]
+  rw [if_neg (by omega), if_neg (by omega), if_neg (by omega)]
+  rw [hm]
+  simp only [v4first]
+  rw [if_neg (by omega)]
+  exact ⟨rfl, rfl⟩
+
+
+/-- **Compact peer lists** (BEP 11 / BEP 23): parsing the compact form of a list of
+    well-formed peers of one family gives the list back, flags included. -/
+theorem C06_pex_compact (w : Nat) (ps : List PexPeer) (h : ∀ p ∈ ps, WFpeer w p) :
+    compactOf w (some (compact ps)) (some (flagsOf ps)) = ps :=
+  compactOf_enc w ps h _ rfl
+
+/-- **Round trip of the PEX message** (ut_pex) through the model of protocol.Read with the
+    Lean bencode decoder, any bytes following; the decoded lists are the emitted ones with
+    the IPv4 peers first (flags of dropped peers are not transmitted). -/
+theorem C06_roundtrip_pex (rest : Bytes) (a d : List PexPeer) (ha : WFpexList a) (hd : WFpexList d)
+    (hd0 : ∀ p ∈ d, p.flags = 0) (hlen : (encDict (pexDict a d)).length + 2 ≤ 1048576) :
+    ∃ bs, encode (.pex 1 a d) = some bs ∧
+      (decode leanBDec (bs ++ rest)).res = .msg (.pex 1 (v4first a) (v4first d)) ∧
+      (decode leanBDec (bs ++ rest)).consumed = bs.length := by
+  have h := rt_pex rest a d ha hd hd0 hlen
+  simp only [decode_eq]
+  refine ⟨_, rfl, ?_, ?_⟩
+  · exact h.1
+  · rw [show frame 20 ([UInt8.ofNat 1] ++ encDict (pexDict a d)) =
+        be32 (([1] ++ encDict (pexDict a d)).length + 1) ++ [20] ++ ([1] ++ encDict (pexDict a d)) from rfl]
+    rw [h.2]; simp [be32_length] <;> omega
+
+example : WFpexList [⟨[1,2,3,4], 6881, 1⟩, ⟨List.replicate 16 7, 80, 0⟩] := by
+  refine ⟨?_, by decide⟩
+  intro p hp
+  simp at hp
+  rcases hp with rfl | rfl
+  · left; simp [WFpeer]
+  · right; simp [WFpeer]
+
+end Storrent.Props.C06
+
+namespace Storrent.Props.C06
+open Storrent Storrent.Bencode Storrent.Wire Storrent.Props.C04
+
+structure WFext0 (e : Ext0) : Prop where
+  ver : e.version.length < 2147483648
+  port : e.port < 65536
+  reqq : U32 e.reqq
+  ms : U32 e.metadataSize
+  v4 : ∀ s, e.ipv4 = some s → s.length = 4
+  v6 : ∀ s, e.ipv6 = some s → s.length = 16
+  msgs : ∀ kv ∈ e.messages, kv.1.length < 2147483648 ∧ kv.2 < 256
+  msgsLen : e.messages.length ≤ 1000000
+
+theorem lookup_single (k k' : Bytes) (v : BV) :
+    lookup k [(k', v)] = if k' = k then some v else none := by
+  unfold lookup; simp
+
+theorem getU_of_lookup (d : List (Bytes × BV)) (k : String) (bits n : Nat) (c : Prop) [Decidable c]
+    (h : lookup (strBytes k) d = if c then some (natV n) else none) (hn : n < 2 ^ bits) :
+    getU d k bits = some (if c then n else 0) := by
+  unfold getU; rw [h]
+  by_cases hc : c <;> simp [hc, natV, Nat.mod_eq_of_lt hn]
+
+theorem ext0_lookups (e : Ext0) :
+    let d := ext0Dict e
+    lookup (strBytes "e") d = (if e.encrypt = true then some (natV 1) else none) ∧
+    lookup (strBytes "ipv4") d = (if e.ipv4.isSome = true then some (.str (e.ipv4.getD [])) else none) ∧
+    lookup (strBytes "ipv6") d = (if e.ipv6.isSome = true then some (.str (e.ipv6.getD [])) else none) ∧
+    lookup (strBytes "m") d = (if (!e.messages.isEmpty) = true then
+        some (.dictI (e.messages.map (fun kv => (kv.1, (kv.2 : Int))))) else none) ∧
+    lookup (strBytes "metadata_size") d = (if (e.metadataSize != 0) = true then some (natV e.metadataSize) else none) ∧
+    lookup (strBytes "p") d = (if (e.port != 0) = true then some (natV e.port) else none) ∧
+    lookup (strBytes "reqq") d = (if (e.reqq != 0) = true then some (natV e.reqq) else none) ∧
+    lookup (strBytes "upload_only") d = some (natV (if e.uploadOnly then 1 else 0)) ∧
+    lookup (strBytes "v") d = (if (!e.version.isEmpty) = true then some (.str e.version) else none) := by
+  intro d
+  refine ⟨?_, ?_, ?_, ?_, ?_, ?_, ?_, ?_, ?_⟩ <;>
+  · simp only [d, ext0Dict, lookup_append, lookup_optKV, lookup_single]
+    simp [strBytes]
+
+
+
+theorem ext0Dict_good (e : Ext0) (h : WFext0 e) : ∀ kv ∈ ext0Dict e, GoodKey kv.1 ∧ GoodBV kv.2 := by
+  intro kv hkv
+  simp only [ext0Dict, optKV, List.mem_append] at hkv
+  rcases hkv with (((((((h1 | h1) | h1) | h1) | h1) | h1) | h1) | h1) | h1
+  · split at h1 <;> simp at h1; subst h1; simp [GoodKey, GoodBV, strBytes, natV]
+  · split at h1 <;> simp at h1; subst h1
+    rename_i hs
+    obtain ⟨s, hs'⟩ := Option.isSome_iff_exists.mp hs
+    simp [GoodKey, GoodBV, strBytes, hs', h.v4 s hs']
+  · split at h1 <;> simp at h1; subst h1
+    rename_i hs
+    obtain ⟨s, hs'⟩ := Option.isSome_iff_exists.mp hs
+    simp [GoodKey, GoodBV, strBytes, hs', h.v6 s hs']
+  · split at h1 <;> simp at h1; subst h1
+    simp only [GoodKey, GoodBV, strBytes]
+    refine ⟨by decide, ?_⟩
+    intro kv hkv
+    simp at hkv
+    obtain ⟨a, b, hab, rfl⟩ := hkv
+    exact ⟨(h.msgs _ hab).1, by simp⟩
+  · split at h1 <;> simp at h1; subst h1; simp [GoodKey, GoodBV, strBytes, natV]
+  · split at h1 <;> simp at h1; subst h1; simp [GoodKey, GoodBV, strBytes, natV]
+  · split at h1 <;> simp at h1; subst h1; simp [GoodKey, GoodBV, strBytes, natV]
+  · simp at h1; subst h1; simp [GoodKey, GoodBV, strBytes, natV] <;> (split <;> simp)
+  · split at h1 <;> simp at h1; subst h1; simp [GoodKey, GoodBV, strBytes]; exact h.ver
+
+theorem decExt0_enc (e : Ext0) (h : WFext0 e) (rest : Bytes) :
+    decExt0 (encDict (ext0Dict e) ++ rest) = some e := by
+  unfold decExt0
+  rw [parseDict_enc _ (ext0Dict_good e h)]
+  obtain ⟨le, l4, l6, lm, lms, lp, lr, lu, lv⟩ := ext0_lookups e
+  have gv : getS (ext0Dict e) "v" = some (if (!e.version.isEmpty) = true then some e.version else none) :=
+    getS_of_lookup _ _ _ _ lv
+  have g4 : getS (ext0Dict e) "ipv4" = some (if e.ipv4.isSome = true then some (e.ipv4.getD []) else none) :=
+    getS_of_lookup _ _ _ _ l4
+  have g6 : getS (ext0Dict e) "ipv6" = some (if e.ipv6.isSome = true then some (e.ipv6.getD []) else none) :=
+    getS_of_lookup _ _ _ _ l6
+  have gp := getU_of_lookup _ "p" 16 _ _ lp (by have := h.port; omega)
+  have gr := getU_of_lookup _ "reqq" 32 _ _ lr (by have := h.reqq; unfold U32 at this; omega)
+  have gms := getU_of_lookup _ "metadata_size" 32 _ _ lms (by have := h.ms; unfold U32 at this; omega)
+  have gm : getM (ext0Dict e) = some e.messages := by
+    unfold getM; rw [lm]
+    cases hm : e.messages with
+    | nil => simp
+    | cons kv rest =>
+      simp only [List.isEmpty_cons, Bool.not_false, if_true]
+      have hall : (List.map (fun kv => (kv.1, (kv.2 : Int))) (kv :: rest)).all (fun kv => kv.2 ≥ 0) = true := by
+        simp
+      rw [if_pos hall]
+      congr 1
+      rw [List.map_map]
+      have : ∀ x ∈ kv :: rest, ((fun kv : Bytes × Int => (kv.1, kv.2.toNat % 256)) ∘
+          (fun kv : Bytes × Nat => (kv.1, (kv.2 : Int)))) x = x := by
+        intro x hx
+        have := (h.msgs x (by rw [hm]; exact hx)).2
+        simp; rw [Nat.mod_eq_of_lt this]
+      rw [List.map_congr_left this]; simp
+  have gu : getB (ext0Dict e) "upload_only" = some e.uploadOnly := by
+    unfold getB; rw [lu]; cases e.uploadOnly <;> simp [natV]
+  have ge : getB (ext0Dict e) "e" = some e.encrypt := by
+    unfold getB; rw [le]; cases e.encrypt <;> simp [natV]
+  simp only [Option.bind_eq_bind, Option.bind_some, gv, g4, g6, gp, gr, gms, gm, gu, ge, Option.pure_def]
+  congr 1
+  cases e with
+  | mk version port reqq ipv4 ipv6 metadataSize messages uploadOnly encrypt =>
+    simp only [Ext0.mk.injEq]
+    simp only [and_true]
+    refine ⟨?_, ?_, ?_, ?_, ?_, ?_⟩
+    · cases version <;> simp
+    · by_cases hp : port = 0 <;> simp [hp]
+    · by_cases hp : reqq = 0 <;> simp [hp]
+    · cases ipv4 with
+      | none => simp
+      | some s => simp [h.v4 s rfl]
+    · cases ipv6 with
+      | none => simp
+      | some s => simp [h.v6 s rfl]
+    · by_cases hp : metadataSize = 0 <;> simp [hp]
+
+
+
+theorem rt_ext0 (rest : Bytes) (e : Ext0) (h : WFext0 e)
+    (hlen : (encDict (ext0Dict e)).length + 2 ≤ 1048576) :
+    let payload := [0] ++ encDict (ext0Dict e)
+    (dec leanBDec (be32 (payload.length + 1) ++ [20] ++ payload ++ rest)).res = .msg (.ext0 e) ∧
+    (dec leanBDec (be32 (payload.length + 1) ++ [20] ++ payload ++ rest)).consumed
+        = 4 + (payload.length + 1) := by
+  intro payload
+  have hpl : payload.length = (encDict (ext0Dict e)).length + 1 := by
+    simp [payload] <;> omega
+  obtain ⟨a', b, c, d', hbe⟩ : ∃ a b c d, be32 (payload.length + 1) = [a, b, c, d] := ⟨_, _, _, _, rfl⟩
+  have hr : rdBE [a', b, c, d'] = payload.length + 1 := hbe ▸ rdBE_be32 _ (by omega)
+  rw [hbe]
+  have hm := decExt0_enc e h []
+  rw [List.append_nil] at hm
+  simp only [dec, decodeWith, List.cons_append, List.nil_append, List.length_cons, List.take_succ_cons,
+    List.take_zero, List.drop_succ_cons, List.drop_zero, hr, expectedFrameCap, payload]
+  simp [body, findGuard, expectedGuards, guardViolated, leanBDec]
+  rw [if_neg (by omega), if_neg (by omega), if_neg (by omega)]
+  rw [hm]
+  rw [if_neg (by omega)]
+  exact ⟨rfl, rfl⟩
+
+/-- **Round trip of the extended handshake** (BEP 10) through the model of protocol.Read
+    with the Lean bencode decoder, any bytes following. -/
+theorem C06_roundtrip_ext0 (rest : Bytes) (e : Ext0) (h : WFext0 e)
+    (hlen : (encDict (ext0Dict e)).length + 2 ≤ 1048576) :
+    ∃ bs, encode (.ext0 e) = some bs ∧
+      (decode leanBDec (bs ++ rest)).res = .msg (.ext0 e) ∧
+      (decode leanBDec (bs ++ rest)).consumed = bs.length := by
+  have hh := rt_ext0 rest e h hlen
+  simp only [decode_eq]
+  refine ⟨_, rfl, ?_, ?_⟩
+  · exact hh.1
+  · rw [show frame 20 ([0] ++ encDict (ext0Dict e)) =
+        be32 (([0] ++ encDict (ext0Dict e)).length + 1) ++ [20] ++ ([0] ++ encDict (ext0Dict e)) from rfl]
+    rw [hh.2]; simp [be32_length] <;> omega
+
+example : WFext0 { version := [83], port := 6881, reqq := 250, ipv4 := some [1,2,3,4],
+                   messages := [([117], 1)], uploadOnly := true } where
+  ver := by decide
+  port := by decide
+  reqq := by unfold U32; decide
+  ms := by unfold U32; decide
+  v4 := by intro s h; cases h; rfl
+  v6 := by intro s h; cases h
+  msgs := by intro kv hkv; simp at hkv; subst hkv; decide
+  msgsLen := by decide
+
+
+end Storrent.Props.C06
